@@ -433,7 +433,7 @@ func init() {
 func c18Report(w *fw.W, cs *world.Case, pair int, d string, again func() string) {
 	for i := 0; i < 3; i++ {
 		if d2 := again(); d2 != d {
-			w.Notes = append(w.Notes, "HARNESS ERROR: C18 violation did not reproduce: "+cs.Note+"\nfirst:  "+d+"\nsecond: "+d2)
+			w.Notes = append(w.Notes, "UNREPRODUCED: C18 violation did not reproduce: "+cs.Note+"\nfirst:  "+d+"\nsecond: "+d2)
 			return
 		}
 	}
